@@ -45,6 +45,8 @@ Definition TemplateT := 12.
 (* ---- bytes ------------------------------------------------------------------------------ *)
 Definition is_ws (c : Z) : bool := (c =? 32) || (c =? 9) || (c =? 10) || (c =? 13) || (c =? 12).
 Definition is_letter (c : Z) : bool := ((97 <=? c) && (c <=? 122)) || ((65 <=? c) && (c <=? 90)).
+(* c == ' ' || c == '>' || c == '/' || c == '\t' || c == '\n' || c == '\r' || c == '\f' *)
+Definition is_tagend (c : Z) : bool := is_ws c || (c =? 62) || (c =? 47).
 Definition lower (c : Z) : Z := if (65 <=? c) && (c <=? 90) then c + 32 else c.   (* parse.ToLower *)
 
 (* ---- html.ToHash over the generated tables ---------------------------------------------- *)
@@ -252,7 +254,11 @@ Definition rawtext_body (c : cfg) (raw : Z) (s : lx * bool) : res (lp (lx * bool
       let mk := mark z in
       z2 <-- letters_loop (mv z 2) ;;
       h <-- hash_lexeme_from z2 (mk + 2) ;;
-      if h =? raw then Ok (Brk (rewind z2 mk, has)) else Ok (Cont (z2, has))
+      if h =? raw then
+        c <-- pkr z2 0 ;;                             (* the byte that stopped the letter loop *)
+        if is_tagend c || eof0 z2 c then Ok (Brk (rewind z2 mk, has))     (* e.g. </title-x> is not an end tag *)
+        else Ok (Cont (z2, has))
+      else Ok (Cont (z2, has))
     else
       sc <-- (if (raw =? html_hash_Script) && (c1 =? 33) then
                 c2 <-- pkr z 2 ;;
@@ -481,23 +487,32 @@ Definition endtag_body (z : lx) : res (lp lx (lx * Z)) :=
   else if eof0 z c then Ok (Brk (z, 0))
   else Ok (Cont (mv z 1)).
 
-Definition is_ws4 (c : Z) : bool := (c =? 32) || (c =? 9) || (c =? 10) || (c =? 13).
-
-(* end := len(text); for end > 0 { if ws4(text[end-1]) { end--; continue }; break } *)
+(* end := len(text); for end > 0 { if ws(text[end-1]) { end--; continue }; break }   (ws: ' ' \t \n \r \f) *)
 Fixpoint trim_rev (r : list Z) : list Z :=
   match r with
-  | c :: t => if is_ws4 c then trim_rev t else r
+  | c :: t => if is_ws c then trim_rev t else r
   | [] => []
   end.
 Definition trim_end_len (bs : list Z) : Z := len (trim_rev (rev bs)).
 
-(* returns (token view, text view, cursor with the whole token lower-cased) *)
+(* n := 2; for n < len(data) { if tagend(data[n]) { break }; n++ } : the length n-2 of the tag name, on data[2:] *)
+Fixpoint name_run (bs : list Z) : Z :=
+  match bs with
+  | [] => 0
+  | c :: t => if is_tagend c then 0 else 1 + name_run t
+  end.
+
+(* returns (token view, text view, cursor with the tag name lower-cased: parse.ToLower(data[2:n])) *)
 Definition shift_endtag (z : lx) : res (sl * sl * lx) :=
   r <-- loop (fuel_of z) endtag_body z ;;
   t <-- lexeme_from (fst r) 2 ;;
   let e := trim_end_len (view_bytes (lbuf z) t) in
   s <-- shiftv (mv (fst r) (snd r)) ;;
-  Ok (fst s, mkSl (so t) e, lx_lower (snd s) (fst s)).
+  let data := fst s in
+  if 2 <=? sn data then                                  (* data[2:n] with len(data) < 2 would panic *)
+    let n := name_run (skipz 2 (view_bytes (lbuf z) data)) in
+    Ok (data, mkSl (so t) e, lx_lower (snd s) (mkSl (so data + 2) n))
+  else Panic.
 
 (* ---- Next ------------------------------------------------------------------------------------ *)
 Inductive dispatch := DText | DTmpl | DEndTag | DStartTag | DMarkup | DBogusQ | DEof.
